@@ -106,7 +106,7 @@ func genCase(t *rapid.T) Case {
 		for i := 0; i < nd; i++ {
 			doc, info := gen.Spec(t, gen.SpecOpts{MaxPaths: 2})
 			if rapid.Bool().Draw(t, "breakdoc") {
-				gen.ApplyRuleEdit(t, gen.PickUniform(t, gen.StableRuleEdits(), "docedit"), doc, info)
+				gen.ApplyRuleEdit(t, gen.ErrorPathEdit(t), doc, info)
 			}
 			c.Docs = append(c.Docs, gen.Text(doc))
 		}
